@@ -35,6 +35,8 @@ type fakeRunner struct {
 	pr  **prunner.PipelineRunner
 	gen int
 
+	gateCh chan struct{} // one token = one iteration of the scheduler loop (gated scripts)
+
 	mu           sync.Mutex
 	onTaskChange func(t *task.Task)
 	ctx          context.Context
@@ -52,7 +54,7 @@ var errNotExit = errors.New("template: script:1: function \"nope\" not defined")
 var errExit1 = errors.New("exit status 1: 100% of /data used, %d left, \"quoted\" %s\nsecond line")
 
 func newFakeRunner(w *world, ji *jobInfo) *fakeRunner {
-	f := &fakeRunner{w: w, job: ji, open: map[string]*openRun{}}
+	f := &fakeRunner{w: w, job: ji, open: map[string]*openRun{}, gateCh: make(chan struct{}, 1)}
 	f.ctx, f.cancel = context.WithCancel(context.Background())
 	return f
 }
@@ -185,4 +187,24 @@ func (f *fakeRunner) openTasks() []string {
 		r = append(r, n)
 	}
 	return r
+}
+
+// passGate is called (poll gate hook) after the pause of every iteration of the scheduler loop that uses this runner,
+// before the loop looks at the stages again.
+func (f *fakeRunner) passGate() {
+	if !f.w.sc.Gated {
+		return
+	}
+	select {
+	case <-f.gateCh:
+	case <-f.w.gateFree:
+	}
+}
+
+// releaseGate lets the loop run one more iteration (if it is parked or when it gets to the gate).
+func (f *fakeRunner) releaseGate() {
+	select {
+	case f.gateCh <- struct{}{}:
+	default:
+	}
 }
